@@ -42,13 +42,30 @@ def column_discipline(ctx, f, obj, line_f, col_f, idx_f, prefix, col_helpers=())
     col_sets = [n for n in nodes if n.get("k") == "assign" and is_field(n["l"], col_f)]
     idx_moves = [n for n in nodes if (n.get("k") == "binary" and n["op"] == "+=" and is_field(n["l"], idx_f)) or (n.get("k") == "assign" and is_field(n["l"], idx_f))] if idx_f else []
     problems = []
+
+    def utf16_measure(e, depth=0):
+        """the expression counts UTF-16 code units: directly, or through a helper whose result is such a count of its argument"""
+        r_ = sir.expr_str(e).replace(" ", "")
+        if "encode_utf16" in r_ or "len_utf16" in r_:
+            return True
+        if depth < 2:
+            for c_ in sir.walk(e):
+                if c_.get("k") in ("call", "mcall"):
+                    nm_ = (sir.call_name(c_) or "").split("::")[-1] if c_.get("k") == "call" else c_["m"]
+                    hs = [g for g in ctx.tc.fns if g.name == nm_ and g.body and g.ret and re.sub(r"\s", "", g.ret) in ("u32", "usize")]
+                    if len(hs) == 1 and hs[0].body["stmts"]:
+                        last = hs[0].body["stmts"][-1]
+                        tail = last.get("e") if last.get("k") == "expr" and not last.get("semi") else None
+                        if tail is not None and utf16_measure(tail, depth + 1):
+                            return True
+        return False
     for n in col_incs:
         r = sir.expr_str(n["r"]).replace(" ", "")
-        if "encode_utf16" not in r and "len_utf16()" not in r:
+        if not utf16_measure(n["r"]):
             problems.append("column advanced by `%s`: not a UTF-16 length" % r[:60])
     for n in col_sets:
         r = sir.expr_str(n["r"]).replace(" ", "")
-        if r not in ("0", "prev_utf16_col") and "encode_utf16" not in r and "len_utf16()" not in r and not r.startswith("position_offset"):
+        if r not in ("0", "prev_utf16_col") and not utf16_measure(n["r"]) and not r.startswith("position_offset"):
             problems.append("column set to `%s`: not a UTF-16 length" % r[:60])
     # a line increment must be accompanied by a column reset: either in the same branch (`if c == '\n' {line += 1; col = 0}`)
     # or, when the increment is unconditional (`line += count`), in a branch taken whenever count > 0
